@@ -573,6 +573,48 @@ fn extra_api(rep: &mut Report) {
         let enc = MessageIntegrity::new(key.clone());
         (mi == mi2, sh == sh2, fp == fp2, mi.validate(&[], &key), sh.validate(&[0; 70000], &key), fp.validate(&[]), enc.validate(&[1], &key), Fingerprint::default().validate(&[1]), format!("{:?}{:?}", enc, fp))
     });
+    // validate() of the three verifiable attributes is a public entry point that takes ANY byte string: every input of 0..=72
+    // bytes (0x00 / 0xFF / a counting pattern) with bytes 2..4 - where a message header keeps its length - set to every value
+    // of a 14-entry menu, plus the input texts of real messages handed to the WRONG attribute's validate
+    {
+        let key = HMACKey::new_short_term("k").unwrap();
+        let mi = MessageIntegrity::from([7u8; 20]);
+        let sh = MessageIntegritySha256::from([7u8; 32]);
+        let fp = Fingerprint::from([1u8, 2, 3, 4]);
+        let lens: [u16; 14] = [0, 1, 4, 7, 8, 9, 12, 20, 24, 52, 100, 0x7FFF, 0xFFFC, 0xFFFF];
+        for n in 0..=72usize {
+            for fill in 0..3u8 {
+                for l in lens {
+                    let mut input: Vec<u8> = (0..n).map(|i| match fill { 0 => 0u8, 1 => 0xFF, _ => i as u8 }).collect();
+                    if n >= 4 {
+                        input[2..4].copy_from_slice(&l.to_be_bytes());
+                    }
+                    let inp = || json!({"api": "validate", "input_len": n, "bytes_2_4": l, "fill": fill});
+                    np("Fingerprint::validate", "arbitrary-input", &inp, rep, || fp.validate(&input));
+                    np("MessageIntegrity::validate", "arbitrary-input", &inp, rep, || mi.validate(&input, &key));
+                    np("MessageIntegritySha256::validate", "arbitrary-input", &inp, rep, || sh.validate(&input, &key));
+                }
+            }
+        }
+        // real input texts, each given to every attribute's validate (the text of one attribute is not the text of another)
+        for v in crate::seeds::seeds(false).iter().filter(|s| s.label.starts_with("rfc5769") || s.label.contains("+3tail")).take(12) {
+            let texts: Vec<Vec<u8>> = [
+                stun_rs::get_input_text::<MessageIntegrity>(&v.bytes),
+                stun_rs::get_input_text::<MessageIntegritySha256>(&v.bytes),
+                stun_rs::get_input_text::<Fingerprint>(&v.bytes),
+                Some(v.bytes.clone()),
+            ]
+            .into_iter()
+            .flatten()
+            .collect();
+            for t in texts {
+                let inp = || json!({"api": "validate", "input": "input text of a real message", "len": t.len()});
+                np("Fingerprint::validate", "other-attribute's-text", &inp, rep, || fp.validate(&t));
+                np("MessageIntegrity::validate", "other-attribute's-text", &inp, rep, || mi.validate(&t, &key));
+                np("MessageIntegritySha256::validate", "other-attribute's-text", &inp, rep, || sh.validate(&t, &key));
+            }
+        }
+    }
     np("error-code-attribute", "any", &none, rep, || {
         let e = stun_rs::ErrorCode::new(699, "x").unwrap();
         let a = stun_rs::attributes::stun::ErrorCode::from(e.clone());
